@@ -177,6 +177,27 @@ impl Check for MigrationCheck {
                 }));
             }
         }
+        // race pairs: a reading command (on-demand pull on the importing side) and, a few hops later,
+        // a deleting command on the same preloaded key from another client through the same proxy,
+        // placed inside the migration window
+        let max_latency_ms = *rng.pick(&[1u64, 2, 3, 5, 8, 15]);
+        if n_clients >= 2 {
+            let pre: Vec<usize> = (0..keys.len()).filter(|k| keys[*k]["preload"].as_bool().unwrap_or(false) && keys[*k]["class"].as_str() != Some("cnt")).collect();
+            if !pre.is_empty() {
+                for j in 0..rng.range(4, 24) {
+                    let k = *rng.pick(&pre);
+                    let lst = keys[k]["class"].as_str() == Some("lst");
+                    let at = scale_at + rng.below(3500);
+                    let c1 = rng.below(n_clients as u64);
+                    let c2 = (c1 + 1 + rng.below(n_clients as u64 - 1)) % n_clients as u64;
+                    let proxy = rng.below(n_proxies as u64);
+                    let first = if lst { "LLEN" } else if ttl_mode { *rng.pick(&["GET", "EXISTS"]) } else { *rng.pick(&["GET", "EXISTS", "GET", "APPEND"]) };
+                    let second = if lst { *rng.pick(&["DEL", "LPOP", "RPOP"]) } else { "DEL" };
+                    ops.push(json!({"c": c1, "at": at, "key": k, "op": first, "val": format!("r{}_{}", j, rng.below(1000)), "proxy": proxy}));
+                    ops.push(json!({"c": c2, "at": at + rng.below(6 * max_latency_ms + 1), "key": k, "op": second, "val": format!("d{}_{}", j, rng.below(1000)), "proxy": proxy}));
+                }
+            }
+        }
         // C19 buggify: one node answers PTTL with a fixed value on some runs
         let pttl_override: Value = if ttl_mode && index % 3 == 2 {
             json!(*rng.pick(&["0", "1", "2", "999", "2147483648", "4294967297", "9223372036854775807", "-1", "-2", "-2", "abc"]))
@@ -187,7 +208,7 @@ impl Check for MigrationCheck {
             "engine": "cluster", "mode": "migration", "seed": seed,
             "cfg": {
                 "start_chunks": start_chunks, "target_chunks": target_chunks, "n_proxies": n_proxies,
-                "max_latency_ms": *rng.pick(&[1u64, 2, 3, 5, 8, 15]),
+                "max_latency_ms": max_latency_ms,
                 "backend_conn_num": rng.range(1, 3),
                 "active_redirection": rng.chance(1, 3),
                 "max_redirections": rng.range(2, 4),
